@@ -29,3 +29,11 @@ def run(ctx):
     # input-mode dimension (CLI layer): roots on argv vs --stdin, repeated / nested / overlapping roots, files as roots
     G.stdin_mode_check(ctx, eng, [G.gen_stdin_spec(ctx.rng.fork(), "C03") for _ in range(ctx.pick(24, 300))])
 
+    # component-boundary twins (a/bc vs ab/c as hard links of one inode) in plain mode; the --stdin batch above has them too
+    tw = []
+    for _ in range(ctx.pick(12, 150)):
+        x = G.gen_spec(ctx.rng.fork(), "C03", small=True)
+        tw.append(G.add_boundary_twins(ctx.rng.fork(), x))
+    G.process_results(ctx, eng, eng.run_specs(tw))
+    trf = [G.gen_in_transform_spec(ctx.rng.fork(), failing=True) for _ in range(ctx.pick(8, 100))]
+    G.process_results(ctx, eng, eng.run_specs(trf))
